@@ -84,3 +84,49 @@ func VerifC03_HeadCidSpelling() {
 		verif_Assert(gerr != nil && got == cid.Undef, "a head whose CID is another spelling of the signed multihash is rejected")
 	}
 }
+
+type c03rec struct {
+	hdr    http.Header
+	status int
+	body   []byte
+}
+
+func (r *c03rec) Header() http.Header         { return r.hdr }
+func (r *c03rec) WriteHeader(code int)        { r.status = code }
+func (r *c03rec) Write(b []byte) (int, error) { r.body = append(r.body, b...); return len(b), nil }
+
+// C03 (publisher side): what a publisher serves as the head verifies for the
+// root it was given — the CURRENT root: once SetRoot(B) has returned, every
+// later head request is answered with a head signed over B, whatever head
+// requests were in flight while the root changed (all schedules within the bound).
+func VerifC03_PublisherServesCurrentRoot() {
+	k := c03newKey()
+	rootA, rootB := c03cid(0xa1), c03cid(0xb2)
+	p := &Publisher{privKey: k.priv, peerID: k.id, topic: "/topic"}
+	p.SetRoot(rootA)
+	get := func() (*c03rec, *http.Request) {
+		req, err := http.NewRequestWithContext(context.Background(), http.MethodGet, "http://pub.example/head", nil)
+		verif_Assume(err == nil)
+		return &c03rec{hdr: http.Header{}}, req
+	}
+	done := make(chan struct{}, 2)
+	go func() { // a head request in flight...
+		w, req := get()
+		p.ServeHTTP(w, req)
+		done <- struct{}{}
+	}()
+	go func() { // ...while the root changes
+		p.SetRoot(rootB)
+		done <- struct{}{}
+	}()
+	<-done
+	<-done
+	verif_Reach("root changed")
+	w, req := get()
+	p.ServeHTTP(w, req)
+	rt := &vRT{fn: func(r *http.Request) (*http.Response, error) { return vResp(200, w.body), nil }}
+	s := &Syncer{client: &http.Client{Transport: rt}, rootURL: vURL("http://pub.example/ipni/v1/ad"), sync: &Sync{}, peerInfo: peer.AddrInfo{ID: k.id}}
+	got, gerr := s.GetHead(context.Background())
+	verif_Assert(gerr == nil, "what the publisher serves as its head verifies for a client expecting that publisher")
+	verif_Assert(got == rootB, "after SetRoot returned, the head served is signed over the root the publisher was given")
+}
